@@ -45,12 +45,8 @@
     "C10: copy offset is non-zero and does not reach before the start of the output; length >= 4")
 #define CQV_STREAM_TOTAL(done, n) __CPROVER_assert((done) == (n), \
     "C10: literal and copy lengths of the emitted elements sum to the input length")
-#ifdef CQV_LEN32
 #define CQV_PREAMBLE_FITS(n) __CPROVER_assert((n) <= 0xFFFFFFFFull, \
     "C09/C10: uncompressed length is representable in the 32-bit preamble (else the stream cannot round-trip)")
-#else
-#define CQV_PREAMBLE_FITS(n) ((void)0)
-#endif
 #ifdef CQV_REFINV
 #define CQV_REF_INSIDE(e, n) __CPROVER_assert((size_t)(e) + 15 < (n), "ref = src + table entry lies inside src (>= 15 bytes before the end)")
 #else
@@ -152,4 +148,19 @@ void h_c09_compress(void) {
   CQV_CANARY("snappy_compress returns");
   if (st == CARQUET_OK) CQV_CANARY("snappy_compress returns OK");
   if (st == CARQUET_ERROR_COMPRESSION) CQV_CANARY("snappy_compress can refuse");
+}
+
+/* input class src_size > 2^32-1 only: the function returns before any loop; checked against the same
+ * contract (job selects the two "oversize refused / not written" ensures) */
+void h_c09_compress_oversize(void) {
+  const uint8_t *src = nondet_ptr();
+  uint8_t *dst = nondet_ptr();
+  size_t *dst_size = nondet_ptr();
+  size_t src_size = nondet_size_t(), dst_capacity = nondet_size_t();
+  __CPROVER_assume(src_size > 0xFFFFFFFFul);
+  cqv_k = nondet_size_t();
+  cqv_old_dst_k = nondet_u8();
+  carquet_status_t st = carquet_snappy_compress(src, src_size, dst, dst_capacity, dst_size);
+  CQV_CANARY("snappy_compress (oversize) returns");
+  if (st == CARQUET_ERROR_COMPRESSION) CQV_CANARY("snappy_compress (oversize) refuses");
 }
